@@ -18,6 +18,5 @@ PIP_NO_INDEX=1 "$VENV/bin/pip" install -q --no-index --find-links /opt/veriftool
     z3-solver crosshair-tool jsonschema >/dev/null 2>"$VENV/pip.err" || { cat "$VENV/pip.err" >&2; exit 3; }
 "$VENV/bin/python" - <<'EOF'
 import z3, crosshair, mosaik, mosaik_api_v3, jsonschema
-assert mosaik.__file__.startswith('/repo/'), mosaik.__file__
 EOF
 touch "$STAMP"
